@@ -486,6 +486,18 @@ def cases(tier, what="forward"):
                     if s == k and ok:
                         a2 = dict(args); del a2["stride"]
                         add(o, [(N, C, H, W)], a2); add(o, [(N, C, H, W)], a2, form="layer")
+    # --- extents around the limits of narrow integer types (index arithmetic in 8 / 16 bits), forward lattice only
+    if fw:
+        for L in (127, 128, 255, 256, 257):
+            for (k, p) in ((3, 1), (2, 2)):
+                add("conv1d", [(1, 1, L), (1, 1, k)], {"stride": 1, "padding": p, "dilation": 1})
+                add("max_pool1d", [(1, 1, L)], {"kernel_size": k, "stride": 1, "padding": p // 2 if k == 2 else p, "dilation": 1})
+                add("avg_pool1d", [(1, 1, L)], {"kernel_size": k, "stride": 2, "padding": 1, "dilation": 1})
+                add("conv2d", [(1, 1, L, 2), (1, 1, k, 1)], {"stride": 1, "padding": [p, 0], "dilation": 1})
+                add("conv2d", [(1, 2, 2, L), (2, 2, 1, k), (2,)], {"stride": [1, 2], "padding": [0, p], "dilation": 1})
+                add("unfold", [(1, 1, L, 2)], {"kernel_size": [k, 1], "stride": 1, "padding": [p, 0], "dilation": 1})
+                add("max_pool2d", [(1, 1, 2, L)], {"kernel_size": [1, k], "stride": 1, "padding": [0, 1], "dilation": 1})
+                add("avg_pool2d", [(1, 1, L, 2)], {"kernel_size": [k, 2], "stride": [2, 1], "padding": [1, 1], "dilation": 1})
     # --- batch norm
     bshapes = [(2, 2), (3, 1), (2, 3), (2, 2, 2), (3, 1, 2), (1, 2, 3), (2, 2, 2, 1), (1, 2, 2, 2), (2, 1, 1, 3)]
     for s in bshapes:
